@@ -6,7 +6,7 @@
 From Coq Require Import List ZArith NArith Bool.
 From Coq.Strings Require Import Byte.
 Import ListNotations.
-From SV Require Import Text G_codes G_flags C05_Model C06_Model C06_Lemmas.
+From SV Require Import Text G_codes G_flags C05_Model C05_Lemmas C06_Model C06_Lemmas.
 Local Open Scope Z_scope.
 
 (* ---- extraction (no update_fts) ---- *)
@@ -162,7 +162,7 @@ Proof. exact (fun q => conj (no_update_keeps_fts q) (no_update_keeps_fts_rc q)).
 Print Assumptions C06_no_update_keeps_fts.
 
 (* ---- the domain predicate evaluated by the harness implies the hypotheses used above; end-to-end corollaries ---- *)
-Theorem C06_wf_sound : forall data fts w u sp fi, wf_C06 data fts w u sp fi = true ->
+Theorem C06_wf_sound : forall data fts w u sp fi, wf_C06 data fts w u sp fi None = true ->
   exists fs ow, build_fts fts = Ok fs /\ build_win w = Ok ow /\
     let q := new_seq data fs in
     upper (sdata q) = sdata q /\ forallb in_alpha (sdata q) = true /\
@@ -171,29 +171,112 @@ Theorem C06_wf_sound : forall data fts w u sp fi, wf_C06 data fts w u sp fi = tr
 Proof. exact wf_C06_sound. Qed.
 Print Assumptions C06_wf_sound.
 
-Theorem C06_run_slice_tracked : forall data fts a b step sp fi, wf_C06 data fts (RSlice a b step) true sp fi = true ->
+Theorem C06_run_slice_tracked : forall data fts a b step sp fi, wf_C06 data fts (RSlice a b step) true sp fi None = true ->
   exists fs, build_fts fts = Ok fs /\
     let len := Z.of_nat (length data) in
     let lo := fst (slice_bounds len a b) in
     let hi := snd (slice_bounds len a b) in
-    run_op data fts (RSlice a b step) true sp fi = Ok (mkSeq (zsub (upper data) lo hi) (slice_spec lo hi lo fs)).
+    run_op data fts (RSlice a b step) true sp fi None = Ok (mkSeq (zsub (upper data) lo hi) (slice_spec lo hi lo fs)).
 Proof. exact run_slice_tracked. Qed.
 Print Assumptions C06_run_slice_tracked.
 
-Theorem C06_run_rc_tracked : forall data fts sp fi, wf_C06 data fts RRc true sp fi = true ->
+Theorem C06_run_rc_tracked : forall data fts sp fi, wf_C06 data fts RRc true sp fi None = true ->
   exists fs, build_fts fts = Ok fs /\
-    run_op data fts RRc true sp fi = Ok (mkSeq (rc (upper data)) (map (feature_rc (Z.of_nat (length data))) fs)).
+    run_op data fts RRc true sp fi None = Ok (mkSeq (rc (upper data)) (map (feature_rc (Z.of_nat (length data))) fs)).
 Proof. exact run_rc_tracked. Qed.
 Print Assumptions C06_run_rc_tracked.
+
+(* ---- depth round: error clauses, options with update_fts, gap, RNA, unstranded features, filler length ---- *)
+Theorem C06_multi_update_error : forall gap q ls sp fi, (1 < length ls)%nat -> slice_locs_g gap q ls sp fi true = Err E_Value.
+Proof. exact multi_update_error. Qed.
+Print Assumptions C06_multi_update_error.
+
+Theorem C06_single_options_irrelevant : forall gap q l sp fi u,
+  slice_locs_g gap q [l] sp fi u = slice_locs_g gap q [l] None None u.
+Proof. exact single_options_irrelevant. Qed.
+Print Assumptions C06_single_options_irrelevant.
+
+Theorem C06_int_index_error : forall q i u sp fi,
+  let len := Z.of_nat (length (sdata q)) in
+  (i < - len \/ len <= i) -> getitem q (WInt i) u sp fi = Err E_Index.
+Proof. exact int_index_error. Qed.
+Print Assumptions C06_int_index_error.
+
+(* the gap-aware model restricted to gap=None is the model the theorems above are about *)
+Theorem C06_getitem_gap_none : forall q w u sp fi, getitem_g q w u sp fi None = getitem q w u sp fi.
+Proof. exact getitem_g_None. Qed.
+Print Assumptions C06_getitem_gap_none.
+
+Theorem C06_no_update_keeps_fts_gap : forall q w sp fi gap r, getitem_g q w false sp fi gap = Ok r -> sfts r = sfts q.
+Proof. exact no_update_keeps_fts_g. Qed.
+Print Assumptions C06_no_update_keeps_fts_gap.
+
+(* gap=g: a window [x, y) counts residues; with the gap columns removed it is the plain window of the ungapped sequence;
+   the same for Location windows on both strands (gap symbols '-' '.'); on gap-free sequences the option is neutral *)
+Theorem C06_gap_window_spec : forall g s x y, 0 <= x -> x <= y ->
+  degap g (gslice (Some g) s (Some x) (Some y)) = zsub (degap g s) x y.
+Proof. exact gap_window_spec. Qed.
+Print Assumptions C06_gap_window_spec.
+
+Theorem C06_gap_piece_spec : forall g s l, forallb is_gapsym g = true -> forallb in_alpha s = true ->
+  0 <= lstart l -> lstart l <= lstop l ->
+  degap g (gpiece (Some g) s l) = spiece (degap g s) (lstart l) (lstop l) (is_minus l).
+Proof. exact gap_piece_spec. Qed.
+Print Assumptions C06_gap_piece_spec.
+
+Theorem C06_gap_neutral : forall g s x y, forallb (fun c => negb (has c g)) s = true -> 0 <= x -> 0 <= y ->
+  gslice (Some g) s (Some x) (Some y) = gslice None s (Some x) (Some y).
+Proof. exact gap_neutral. Qed.
+Print Assumptions C06_gap_neutral.
+
+(* RNA (alphabet plus U): residues are tracked under rc up to writing T for U, the sense in which C05 proves rc on RNA *)
+Theorem C06_rc_tracking_rna : forall s l, forallb in_alpha_rna s = true ->
+  0 <= lstart l -> lstart l <= lstop l -> lstop l <= Z.of_nat (length s) -> is_pm (lstrand l) = true ->
+  u2t (piece (rc s) (loc_reverse (Z.of_nat (length s)) l)) = u2t (piece s l).
+Proof. exact piece_rc_rna. Qed.
+Print Assumptions C06_rc_tracking_rna.
+
+(* unstranded locations ('.', '?'): mirrored coordinate-wise, strand value kept, addressing the reverse complement *)
+Theorem C06_rc_tracking_unstranded : forall s l, forallb in_alpha s = true ->
+  0 <= lstart l -> lstart l <= lstop l -> lstop l <= Z.of_nat (length s) -> is_pm (lstrand l) = false ->
+  let l' := loc_reverse (Z.of_nat (length s)) l in
+  lstart l' = Z.of_nat (length s) - lstop l /\ lstop l' = Z.of_nat (length s) - lstart l /\ lstrand l' = lstrand l /\
+  piece (rc s) l' = rc (piece s l).
+Proof. exact rc_tracking_unstranded. Qed.
+Print Assumptions C06_rc_tracking_unstranded.
+
+Theorem C06_feature_window_unstranded : forall s w l, forallb in_alpha s = true ->
+  let len := Z.of_nat (length s) in
+  let lo := lstart w in
+  let hi := lstop w in
+  loc_in len w = true -> loc_in len l = true -> overlaps lo hi l = true -> is_pm (lstrand l) = false ->
+  let c := cut_spec lo hi lo l in
+  piece (zsub s lo hi) c = zsub s (Z.max lo (lstart l)) (Z.min hi (lstop l)) /\
+  piece (rc (zsub s lo hi)) (loc_reverse (hi - lo) c) = rc (zsub s (Z.max lo (lstart l)) (Z.min hi (lstop l))).
+Proof. exact feature_window_unstranded. Qed.
+Print Assumptions C06_feature_window_unstranded.
+
+(* filler: ascending non-overlapping plus-strand locations are padded to the length of the feature's range *)
+Theorem C06_filler_pads : forall s c l0 r, negb (is_minus l0) = true ->
+  0 <= lstart l0 -> lstart l0 <= lstop l0 -> lstop l0 <= Z.of_nat (length s) -> chain_ok (Z.of_nat (length s)) l0 r = true ->
+  Z.of_nat (length (concat (extract_spec s (Some [c]) None (l0 :: r)))) = lstop (last r l0) - lstart l0.
+Proof. exact filler_pads. Qed.
+Print Assumptions C06_filler_pads.
+
+(* Feature(...) argument forms used by the driver build the same features *)
+Theorem C06_run_op_modes : forall mode data fts w u sp fi gap, wf_C06 data fts w u sp fi gap = true -> (mode = 0 \/ mode = 1) ->
+  run_op_m mode data fts w u sp fi gap = run_op data fts w u sp fi gap.
+Proof. exact run_op_modes. Qed.
+Print Assumptions C06_run_op_modes.
 
 (* ---- non-vacuity: a minus-strand two-location feature and a cut plus-strand feature, window [2, 6) ---- *)
 Example C06_witness :
   let data := bs "ACGTACGT"%bs in
   let fts := [(Some (bs "cds"%bs), [(0, 8, 43, 0)]); (Some (bs "gene"%bs), [(1, 3, 45, 0); (5, 7, 45, 0)])] in
-  wf_C06 data fts (RSlice (Some 2) (Some 6) None) true None None = true /\
-  wf_C06 data fts (RLoc (2, 6, 45, 0)) true None None = true /\
-  wf_C06 data fts RRc true None None = true /\
-  Bstr (show (show_res (run_op data fts (RLoc (2, 6, 45, 0)) true None None))) =
+  wf_C06 data fts (RSlice (Some 2) (Some 6) None) true None None None = true /\
+  wf_C06 data fts (RLoc (2, 6, 45, 0)) true None None None = true /\
+  wf_C06 data fts RRc true None None None = true /\
+  Bstr (show (show_res (run_op data fts (RLoc (2, 6, 45, 0)) true None None None))) =
   Bstr (show (VL [VS (bs "GTAC"%bs);
                   VL [VL [VS (bs "cds"%bs); VL [VL [VI 0; VI 4; VS (bs "-"%bs); VI 3]]];
                       VL [VS (bs "gene"%bs); VL [VL [VI 0; VI 1; VS (bs "+"%bs); VI 1]; VL [VI 3; VI 4; VS (bs "+"%bs); VI 2]]]]])).
@@ -203,8 +286,16 @@ Proof. exact (conj eq_refl (conj eq_refl (conj eq_refl eq_refl))). Qed.
 Example C06_witness_empty_window :
   let data := bs "ACGTACGT"%bs in
   let fts := [(Some (bs "cds"%bs), [(0, 8, 43, 0)])] in
-  wf_C06 data fts (RSlice (Some 3) (Some 3) None) true None None = true /\
-  run_op data fts (RSlice (Some 3) (Some 3) None) true None None = Ok (mkSeq [] []) /\
-  wf_C06 data fts (RSlice (Some 5) (Some 2) None) true None None = true /\
-  run_op data fts (RSlice (Some 5) (Some 2) None) true None None = Ok (mkSeq [] []).
+  wf_C06 data fts (RSlice (Some 3) (Some 3) None) true None None None = true /\
+  run_op data fts (RSlice (Some 3) (Some 3) None) true None None None = Ok (mkSeq [] []) /\
+  wf_C06 data fts (RSlice (Some 5) (Some 2) None) true None None None = true /\
+  run_op data fts (RSlice (Some 5) (Some 2) None) true None None None = Ok (mkSeq [] []).
 Proof. exact empty_window_ok. Qed.
+
+(* gap: residues 1..3 of A-CGT; a minus-strand window over a gapped stretch; an RNA / unstranded hypothesis instance *)
+Example C06_witness_gap :
+  Bstr (gslice (Some (bs "-"%bs)) (bs "A-CGT"%bs) (Some 1) (Some 3)) = "CG"%bs /\
+  Bstr (gpiece (Some (bs "-"%bs)) (bs "AC--GTTAG"%bs) (mkLoc 1 4 S_REVERSE 0)) = "AC--G"%bs /\
+  forallb in_alpha_rna (bs "ACGU"%bs) = true /\ is_pm S_NONE = false /\
+  chain_ok 8 (mkLoc 0 2 S_FORWARD 0) [mkLoc 4 6 S_FORWARD 0] = true.
+Proof. exact (conj eq_refl (conj eq_refl (conj eq_refl (conj eq_refl eq_refl)))). Qed.
